@@ -19,7 +19,8 @@ RULE = ("Engine K as C12 with consumer scripts biased to stalls (short, long, re
         "after such a hold carry the flag held_retrieval), or it withdraws the granted retrieval zero to two kernel hops after "
         "the grant (what a FIRST_AVAILABLE fan-in node does to the edges it did not pick; the head then waits unreserved) and "
         "asks again later; the source side may likewise withdraw a granted admission zero to two kernel hops after the grant "
-        "(a FIRST_AVAILABLE fan-out node) and ask again later - nothing enters. Non-trivial: a stall happened while another item was on the belt or an admission request was pending.")
+        "(a FIRST_AVAILABLE fan-out node) and ask again later - nothing enters; in a part of those cases a second source process shares "
+        "the belt (own script; admissions are served in request order). Non-trivial: a stall happened while another item was on the belt or an admission request was pending.")
 ASSUMPTIONS = ["unless the case says otherwise (collection time, withdrawn retrieval / admission) the consumer gets and the producer puts at the grant instant",
                "times compared with 1e-9 relative tolerance",
                "slotted conveyor = continuous model with item length 1 slot, length capacity slots, speed 1/delay"]
@@ -45,7 +46,8 @@ def model_for(case, admit_first=()):
         L, il, v = float(c["capacity"]), 1.0, 1.0 / c["delay"]
         cap = c["capacity"]
     return simulate(L, il, v, cap, bool(c.get("acc", 1)), case["producer"], case["consumer"], case.get("T", 400.0), admit_first,
-                    chold=case.get("chold"), ccancel=case.get("ccancel"), pcancel=case.get("pcancel"))
+                    chold=case.get("chold"), ccancel=case.get("ccancel"), pcancel=case.get("pcancel"),
+                    producer2=case.get("producer2"), pcancel2=case.get("pcancel2"))
 
 
 def compare(case, r, m):
@@ -99,10 +101,12 @@ def run_case(case):
         # same-instant ties (an admission request coinciding with the head reaching the exit of a non-accumulating
         # belt) are not fixed by the statement: flip the resolution of the tie at the deviation instant and retry
         tie = next((j for j, tt in enumerate(m["ties"]) if close(tt, d[0]) and j not in chosen), None)
+        via_withdrawn = False
         if tie is None:
             # a tie whose admission was withdrawn again brings no item: its resolution only shows in later instants
             wd = list(getattr(r, "t_cancel_put", ())) + list(m.get("withdrawn", ()))
             tie = next((j for j, tt in enumerate(m["ties"]) if j not in chosen and tt <= d[0] and any(close(tt, x) for x in wd)), None)
+            via_withdrawn = tie is not None
         if tie is None:
             break
         # "admission before the stall" is a legitimate resolution of the tie unless the library's own same-time-step rule
@@ -110,7 +114,8 @@ def run_case(case):
         # arithmetic involved) and the request instant is not earlier than the arrival instant as a float.  In that case
         # the unchanged library refuses in either event order, and so does the model.
         idx = d[3]
-        if d[1] == "admit" and idx < len(r.req_put) and close(m["ties"][tie], d[0]):
+        req_sorted = sorted(r.req_put)
+        if d[1] == "admit" and idx < len(req_sorted) and close(m["ties"][tie], d[0]):
             robust = False
             for hi, it in enumerate(r.items):
                 v = r.t_offer.get(id(it))
@@ -121,7 +126,7 @@ def run_case(case):
                 # time step, so do not allow another item"): elapsed travel >= item_length*capacity/speed
                 c = case["conv"]
                 full = (c["il"] * r.capacity / c["v"]) if c["kind"] == "continuous" else r.travel_nominal
-                if undelayed and not (r.req_put[idx] < v) and (v - r.t_put[hi]) >= full:
+                if undelayed and not (req_sorted[idx] < v) and (v - r.t_put[hi]) >= full:
                     robust = True
             if robust:
                 break
@@ -132,6 +137,13 @@ def run_case(case):
         if d2 is None or d2[0] > d[0]:
             d, m = d2, m2
             res.classes.append("tie_flipped")
+        elif via_withdrawn and (d2[0] > d[0] or close(d2[0], d[0])) and (
+                len(m2.get("withdrawn", ())) > 0 and all(any(close(x, y) for y in r.t_cancel_put) for x in m2["withdrawn"] if x <= d[0])
+                and not all(any(close(x, y) for y in r.t_cancel_put) for x in m.get("withdrawn", ()) if x <= d[0])):
+            # the flip makes the model withdraw at the instants the implementation did; it may take the flip of a later tie
+            # (created by it) to move the deviation - keep it and go on
+            d, m = d2, m2
+            res.classes.append("tie_flipped")
         else:
             chosen.discard(tie)
             break
@@ -140,6 +152,14 @@ def run_case(case):
         flag = structural_flag(case, r, m, d)
         if what == "offer" and a is None and b is not None:
             flag = "never_offered"       # the item is still on the belt when the run ends (T is far beyond the script)
+            cc = case["conv"]
+            if cc["kind"] == "continuous" and cc.get("acc", 1):
+                slot = cc["il"] / cc["v"]
+                if abs(slot * 48 - round(slot * 48)) > 1e-9:
+                    # K3 in its extreme form: with a slot time off every time grid (item 0.5, speed 5.76) the slot-discretised
+                    # interruption plan lets later items overtake one that stopped mid-belt, and with enough followers it is never
+                    # released; on-grid geometries never show this on the unchanged tree
+                    flag = "never_offered_offgrid"
         res.violate((kind, acc, what, direction, flag),
                     "item #%d: %s instant %s in the implementation, %s in the kinematic model (first deviation at t=%s)" % (
                         i, "admission" if what == "admit" else "offer", a, b, t))
